@@ -156,7 +156,7 @@ Proof.
   set (R := hd_decoded O2 (c_client c0) s0 fin rest (o_dec O2 sid block)).
   assert (HA : run fx c0 [(QStream es encdata false, OA); (QStream sid data fin, O2)] = [Events []; to_hout R]).
   { cbn [run]. rewrite (he_stream fx) by assumption. unfold receive_stream_data.
-    destruct (enc_step fx Htr Hem Hpb OA c0 es encdata encpayload [] Hue Henc HoA) as (c1 & E1 & C1 & D1 & F1 & (se' & G1 & G2)).
+    destruct (enc_step fx Htr Hem Hpb OA c0 es encdata encpayload [] Hue Henc HoA) as (c1 & E1 & C1 & D1 & SE1 & F1 & (se' & G1 & G2)).
     rewrite E1. cbn [unblock].
     rewrite (pop_not_ended c1 es se' G1 (is_ended_open _ _ G2)).
     rewrite (he_stream fx) by congruence. unfold receive_stream_data.
@@ -188,7 +188,7 @@ Proof.
       subst cB. transitivity (find_stream es (c_streams cg)).
       - cbn [c_streams set_streams]. apply find_put_other. lia.
       - subst cg. apply goc_find_other. lia. }
-    destruct (enc_step fx Htr Hem Hpb O2 cB es encdata encpayload [sid] Hue HencB Ho2) as (c1 & E1 & C1 & D1 & F1 & (se' & G1 & G2)).
+    destruct (enc_step fx Htr Hem Hpb O2 cB es encdata encpayload [sid] Hue HencB Ho2) as (c1 & E1 & C1 & D1 & SE1 & F1 & (se' & G1 & G2)).
     rewrite E1.
     assert (CC : c_client c1 = c_client c0) by (rewrite C1; subst cB; cbn [c_client set_streams]; congruence).
     assert (FF : find_stream (s_id s0) (c_streams c1) = Some sB) by (rewrite Hid, F1 by assumption; assumption).
